@@ -27,6 +27,13 @@ def run(tier, seed):
     common.nohooks_leg(chk, "honest", nseeds=2, nmsgs=4)
     common.mc_leg(chk, "MC_API")
     common.mc_leg(chk, "MC_ToySign", tier=tier)
+    if tier == "thorough":
+        # the same theorem with k = 2 (vector-shaped t, w, hints, norms) + CanTerminate for every key
+        common.mc_leg(chk, "MC_ToySign", cfg=os.path.join(common.MC_DIR, "MC_ToySign_k2.cfg"), workers=14)
+        # the rejection loop can terminate for EVERY toy key (some (y, c) is accepted): all 972 keys at k = 1, every third at k = 2
+        with ThreadPoolExecutor(max_workers=2) as ex:
+            list(ex.map(lambda c: common.mc_leg(chk, "MC_ToySign", cfg=os.path.join(common.MC_DIR, c), workers=1, coverage=False),
+                        ("MC_ToySign_allkeys.cfg", "MC_ToySign_allkeys_k2.cfg")))
     # the whole specification (hashing, samplers, codecs, rejection loop) on ring degree 8: staged = literal forms, Verify(Sign) = TRUE
     common.mc_leg(chk, "MC_SmallN", tier=tier, coverage=False, must_print=["REJECT1 taken", "REJECT2 taken"])
     chk.cov["exhaustive"] = False
